@@ -509,6 +509,40 @@ def r11_component_weights_and_trace(idx, r):
                   "zero-density nuclide tracked in the fuel gets the all-component volume-average temperature instead of the fuel temperature")
 
 
+def r12_weights_fallbacks_and_resets(idx, r):
+    """(a) the component-temperature average weights each member by  block weight / block height  x component MASS: the mass already carries
+    the block's height, so the block weight (parameter x volume) must be freed of it, or tall members count twice.  (b) a block whose
+    (type, environment group) has no settings of its own borrows those of the LOWEST defined environment group of its type - the fall-back
+    orders the candidates by envGroup.  (c) the list of XS IDs without candidates is rebuilt by every createRepresentativeBlocks call, before
+    anything is appended to it (it drives the relabelling of blocks afterwards)."""
+    f = idx.method(M + ".AverageBlockCollection", "_getAverageComponentTemperature")
+    w = [s_ for s_ in iter_stores(f.node) if s_.attr == "weights" and s_.kind == "assign" and s_.value is not None]
+    mass = any(isinstance(c, ast.Call) and call_attr(c) == "getMass" for c in ast.walk(f.node))
+    if len(w) != 1 or not mass:
+        raise AnchorMissing("_getAverageComponentTemperature: weights = ... and the component masses")
+    wt = norm(w[0].value)
+    r.require("self.getWeight(" in wt and any(isinstance(x, ast.BinOp) and isinstance(x.op, ast.Div) and call_attr(x.right) == "getHeight" if isinstance(x, ast.BinOp) and isinstance(x.right, ast.Call) else False for x in ast.walk(w[0].value)),
+              "component-temperature:block-weight-per-unit-height", f, node=w[0].stmt,
+              msg=f"weights = `{wt[:80]}` multiplied by component masses counts the block height twice (once in getWeight's volume, once in the mass): members of different heights are mis-weighted")
+    g = idx.method("armi.physics.neutronics.crossSectionSettings.XSSettings", "__getitem__")
+    pick = [c for c in ast.walk(g.node) if isinstance(c, ast.Call) and dotted(c.func) in ("sorted", "min") and c.args and norm(c.args[0]) == "existingXsOpts"]
+    if len(pick) != 1:
+        raise AnchorMissing("XSSettings.__getitem__: choice among existingXsOpts")
+    key = next((k.value for k in pick[0].keywords if k.arg == "key"), None)
+    r.require(key is not None and "envGroup" in norm(key) and "xsType" not in norm(key), "settings-fallback:lowest-environment-group", g, node=pick[0],
+              msg=f"the fall-back picks by `{norm(key) if key is not None else None}`: all candidates share the XS type, so the first-inserted one wins instead of the lowest environment group")
+    h = idx.method(M + ".CrossSectionGroupManager", "createRepresentativeBlocks")
+    ap = [c for c in iter_calls(h.node) if norm(c.func) == "self._unrepresentedXSIDs.append"]
+    if not ap:
+        raise AnchorMissing("createRepresentativeBlocks: self._unrepresentedXSIDs.append(...)")
+    fl = Flow(h.node, lambda nd: ["reset"] if isinstance(nd, ast.Assign) and norm(nd) == "self._unrepresentedXSIDs = []" else []).run()
+    for c in ap:
+        stb = fl.state_before(c)
+        r.require(stb is not None and stb.get("reset", (0, 0))[0] >= 1, "unrepresented-ids:rebuilt-by-every-call", h, node=c,
+                  msg="the list of unrepresented XS IDs is not emptied at the start of createRepresentativeBlocks: IDs found without candidates in an earlier call stay listed and the blocks a representative was "
+                      "just built from are relabelled into another group")
+
+
 def run(idx, chk):
     chk.explanation = (
         "C20: every weighted mean in the block-collection classes is typed with a role generator W for the weights: the result must be of degree "
@@ -539,3 +573,5 @@ def run(idx, chk):
                  necessary="'per matching component': components are averaged by position only when all members match")
     chk.run_rule("R20.11", "by-component weights are block weight x component area; the trace density stands in only for held zero-density nuclides", lambda r: r11_component_weights_and_trace(idx, r), floor=4,
                  necessary="representative densities are the weight-normalised mean of the members; a nuclide's temperature is averaged over the components that hold it")
+    chk.run_rule("R20.12", "component-temperature weights per unit height; settings fall-back by lowest environment group; unrepresented-ID list rebuilt per call", lambda r: r12_weights_fallbacks_and_resets(idx, r), floor=3,
+                 necessary="representative temperatures are mass-weighted means; every block ends in the group its (type, environment) selects")
